@@ -184,11 +184,11 @@ def check_type(chk, F, ty, thorough):
             elif body is None:
                 chk.undecide("form|%s|%s::%s" % (ty, tr, pred), "missing anchor")
             else:
-                paths = run_paths(F, body, lambda: [sp.operand("a")])
-                ok = all(len(c.trace) == 1 and c.trace[0][0] == ("pred", pred, A.key()) and unref(v).b == c.trace[0][2]
-                         for c, v, _, _ in paths)
-                chk.ob("form|%s|%s::%s" % (ty, tr, pred), ok, "%s forwards to the real part" % pred, body_loc(F, body),
-                       found=[path_descr(c) for c, _, _, _ in paths], nontrivial=False)
+                from .c06 import single_pred_forward
+                try:
+                    single_pred_forward(chk, F, "form|%s|%s::%s" % (ty, tr, pred), body, sp, pred)
+                except Unsupported as ex:
+                    chk.undecide("form|%s|%s::%s" % (ty, tr, pred), "unsupported: %s" % ex, body_loc(F, body))
         elif tr == "FromPrimitive":
             chk.count("operator/conversion impls")
             sp = Spec(ty)
